@@ -22,8 +22,9 @@ func (l vLister) ListCompleted(ctx context.Context) ([]discovery.SegmentRef, err
 	if l.h.onList() {
 		return nil, errVerifInjected
 	}
-	refs := make([]discovery.SegmentRef, 0, len(l.h.c.segs))
-	for i, s := range l.h.c.segs {
+	segs := l.h.listing()
+	refs := make([]discovery.SegmentRef, 0, len(segs))
+	for i, s := range segs {
 		topic, part := vTopic(s.tp)
 		base := int64(0)
 		if len(s.offs) > 0 {
